@@ -14,9 +14,9 @@ import vlib
 LEVEL = "model_checking"
 
 
-def consts(n, maxt, md, calls, due=True, atomic=True, fault="none", reset=True, rep=0, elem=True, qelem=True):
+def consts(n, maxt, md, calls, due=True, atomic=True, fault="none", reset=True, rep=0, elem=True, qelem=True, keep=True):
     return {"NTasks": n, "MaxT": maxt, "MD": md, "MaxCalls": calls, "DueCheck": due, "AtomicHandlers": atomic,
-            "Fault": '"%s"' % fault, "ResetUnderLock": reset, "RepIv": rep, "SchedElemCheck": elem, "QueueElemCheck": qelem}
+            "Fault": '"%s"' % fault, "ResetUnderLock": reset, "RepIv": rep, "SchedElemCheck": elem, "QueueElemCheck": qelem, "KeepQueued": keep}
 
 
 def cex_steps(r):
@@ -38,14 +38,14 @@ CEX = {}
 
 def model_check(ctx, quick):
     inv = ["NoSelfOverlap", "NoEarlyStart", "NothingLost", "NoStartAfterCancel", "NoEarlyOvertime", "NoExtraRun", "NoDirectSched",
-           "NoQueueDropWhileRunning"]
-    runs = [consts(2, 3, 10, 3), consts(2, 3, 10, 3, rep=1)] if quick else \
+           "NoQueueDropWhileRunning", "NoLostSubmission"]
+    runs = [consts(2, 3, 10, 3), consts(2, 3, 10, 3, rep=1), consts(2, 3, 2, 3)] if quick else \
         [consts(2, 3, 10, 4), consts(2, 3, 2, 3), consts(3, 2, 10, 3), consts(2, 4, 10, 3, rep=2), consts(2, 3, 2, 4, rep=1)]
     # (key, constants, invariants, must hold)
     jobs = [("hold%d" % i, c, inv, True) for i, c in enumerate(runs)]
     # model-level reproduction of the recorded findings (informational: never a verdict)
     jobs += [("cex-nodue", consts(2, 3, 10, 3, due=False, atomic=False, qelem=False, elem=False), ["NoEarlyStart"], False),
-             ("cex-lost", consts(2, 3, 2, 3), ["NoLostSubmission"], False),
+             ("cex-lost", consts(2, 3, 2, 3, keep=False), ["NoLostSubmission"], False),
              ("cex-stale", consts(2, 3, 10, 3, atomic=False, qelem=False, elem=False), ["NoEarlyStart"], False),
              ("cex-reset", consts(2, 3, 10, 3, reset=False), ["NoEarlyStart"], False),
              # F-C07-5 (repaired): the schedule handler's stale decision runs a task a second time
